@@ -1,4 +1,4 @@
-"""Translator: nixio/dimensions.py, container.py, source_link_container.py, multi_tag.py, feature.py
+"""Translator: nixio/dimensions.py, container.py, source_link_container.py, multi_tag.py, feature.py, hdf5/h5group.py
                  ->  NixModel/Generated/LinkShape.lean                                   (property C05)
 
 Parses the sources with `ast` (never imports them) and renders
@@ -25,6 +25,8 @@ Parses the sources with `ast` (never imports them) and renders
    test, membership of the array itself in the block's data_arrays, old link dropped, link written, time stamp) and
    of the `Feature.data` setter (`FStmt`: the isinstance chain with the membership tests and the Tagged/DataFrame
    refusal, THEN `target_type`, the old link, the new link);
+ * the statements of `H5Group.create_link` (`CStmt`): an existing entry of that name is dropped and the name is bound
+   to the target's own HDF5 object (a hard link: a second name, never a copy);
  * the comparisons by which `Container.__contains__` and `SourceLinkContainer._accept` decide that an entity is
    "this very object" (HDF5 object equality, not equality of names or ids).
 
@@ -354,6 +356,26 @@ def _lean_list(items):
     return "[" + ", ".join(items) + "]"
 
 
+def _create_link_body(fn, where):
+    """the statements of `H5Group.create_link` as CStmt terms"""
+    out = []
+    for st in _stmts(fn):
+        src = " ".join(_u(st).split())
+        if src == "self._create_h5obj()":
+            out.append(".ensureObject")
+        elif src == "h5target = target._h5group.group":
+            out.append(".bindTarget")
+        elif _is_raise_if(st, "h5target.file != self.group.file", "ValueError"):
+            out.append(".refuseOtherFile")
+        elif src == "if name in self.group: del self.group[name]":
+            out.append(".dropExisting")
+        elif src == "self.group[name] = h5target":
+            out.append(".hardLink")
+        else:
+            raise _bad(where, st)
+    return _lean_list(out)
+
+
 def _object_comparisons(fn):
     """`<a> == <b>` comparisons in a body, as source text"""
     out = []
@@ -441,6 +463,10 @@ def extract(repo):
 
     feat_body = _lean_list(_feat_stmts(_stmts(_func(ft, "data", "feature.py", setter=True)), "Feature.data setter"))
 
+    htree = _parse(repo, os.path.join("nixio", "hdf5", "h5group.py"))
+    create_link = _create_link_body(_func(_class(htree, "H5Group", "hdf5/h5group.py"), "create_link", "hdf5/h5group.py"),
+                                    "H5Group.create_link")
+
     cont = _class(ctree, "Container", "container.py")
     contains_cmp = _object_comparisons(_func(cont, "__contains__", "container.py"))
     stree = _parse(repo, os.path.join("nixio", "source_link_container.py"))
@@ -455,7 +481,7 @@ def extract(repo):
     L.append("import NixModel.Pure.DimLinkPrim")
     L.append("import NixModel.Store.AcceptShape")
     L.append("/-! GENERATED by harness/extract/linkshape.py from nixio/dimensions.py, container.py, "
-             "source_link_container.py,\nmulti_tag.py, feature.py — do not edit. -/")
+             "source_link_container.py,\nmulti_tag.py, feature.py, hdf5/h5group.py — do not edit. -/")
     L.append("namespace Nix.DimLink.Gen")
     L.append("open Nix.DimLink")
     L.append("")
@@ -503,6 +529,8 @@ def extract(repo):
     L.append("def extentsTail : List Nix.Store.RStmt := %s" % ext_tail)
     L.append("/-- the statements of the `Feature.data` setter -/")
     L.append("def featureDataBody : List Nix.Store.FStmt := %s" % feat_body)
+    L.append("/-- the statements of `H5Group.create_link` -/")
+    L.append("def createLinkBody : List Nix.Store.CStmt := %s" % create_link)
     L.append("")
     L.append("end Nix.DimLink.Gen")
     return {TARGET: "\n".join(L) + "\n"}
